@@ -137,7 +137,7 @@ def parse(file_path):
                         current_object = None
                 elif type(current_object) is MHLIgnoreSpec:
                     if tag == "pattern":
-                        existing_ignore_patterns.append(element.text)
+                        existing_ignore_patterns.append(element.text or "")
                     elif tag == "ignore":
                         hash_list.process_info.ignore_spec = current_object
                         current_object = object_stack.pop()
